@@ -267,7 +267,219 @@ def check_C17(ctx):
             invariants=["Inv_C17"], ops=ops, cfg={"ds": "<", "de": ">"}, nontrivial=has_ready)
 
 
+
+# ---------------------------------------------------------------------------------------------------------------
+SPELLINGS = [("<", ">"), ("<!-- <", "> -->"), ("/* <", "> */"), ("// --", "-- //"), ("# <", "> #"), ("%%", "%%"),
+             ("《", "》"), ("[[", "]]"), ("(*", "*)"), ("{{", "}}"), ("<?", "?>"), ("$(", ")"), ("\\begin{", "}")]
+NAME_POOL = [("tl", "rm"), ("time-limited", "removal-marker"), ("期限", "マーカー")]
+
+CANON_TOS = ["2024-02-29 23:59:59", "2024-03-01 00:00:00", "2023-12-31 23:59:59", "2024-01-01 00:00:00",
+             "2023-02-28 12:00:00", "2000-02-29 00:00:00", "2100-02-28 23:59:59", "1999-12-31 23:59:59",
+             "2038-01-19 03:14:07", "2024-06-30 00:00:01", "2024-10-27 02:30:00", "1970-01-01 00:00:00"]
+BAD_TOS = ["2024/01/01 00:00:00", "2024-01-01T00:00:00", "2024-01-01", "2024-01-01 00:00", "2024-13-01 00:00:00",
+           "2024-02-30 00:00:00", "2023-02-29 00:00:00", "2024-01-01 24:00:00", "2024-01-01 00:60:00",
+           "2024-01-01 00:00:61", "2024-01-01 00:00:00 +09:00", "2024-01-01 00:00:00Z", "2024-01-01 00:00:00 UTC",
+           "", "tomorrow", "2024-00-10 00:00:00", "2024-01-00 00:00:00", "2024.01.01 00.00.00", "00:00:00 2024-01-01x"]
+BAD_OFFS = ["", "Z", "UTC", "+9", "+09", "0900", "+25:00", "+09:60", "+09:00:00", "JST", "+24:00", "09:00"]
+DELTAS = [-86400, -3600, -60, -1, 0, 1, 60, 3600, 86400]
+
+
+def ready_toggle(b):
+    rs = [e.get("ready") for e in b.get("events", []) if e.get("ev") in ("EvalTime", "EvalMarker")]
+    return (True in rs) and (False in rs)
+
+
+def check_C05(ctx):
+    from vlib import TlaSet
+    q = ctx.quick
+    step = 60 if q else 15
+    offs = [m for m in range(-720, 841, step)]
+    if q:
+        offs = sorted(set(offs + [330, 345, -210, 765]))      # half / quarter-hour zones
+    tos = CANON_TOS[:6] if q else CANON_TOS
+    deltas = DELTAS if q else sorted(set(DELTAS + list(range(-90, 91, 7)) + [-2, 2, 59, -59, 61, -61]))
+    base = {"ToValues": [Chars(t) for t in tos], "BadTos": [Chars(t) for t in BAD_TOS], "OffMinutes": TlaSet(offs),
+            "BadOffsets": [Chars(o) for o in BAD_OFFS], "Deltas": deltas}
+    cfg = {"ds": "<", "de": ">", "tl": "tl", "rm": "rm"}
+    ctx.job("time-eval", gens=[{"base": "GenTime", "consts": dict(base, Probe=False)}], invariants=["Inv_C05"], ops=[],
+            cfg=cfg, nontrivial=ready_toggle)
+    small = dict(base, ToValues=[Chars(t) for t in tos[:3]], OffMinutes=TlaSet([0, 540, -480, 345, 840, -720]), Probe=True)
+    ctx.job("time-probe", gens=[{"base": "GenTime", "consts": small}], invariants=["Inv_C05"], ops=[], cfg=cfg,
+            nontrivial=has_ready)
+    # the command line: explicit current time given in different zones, offset option, TZ of the process
+    docs = ["<!-- <time-limited to='2024-03-01 00:00:00'> -->\nx\n<!-- </time-limited> -->\ny\n"]
+    for (off, now) in [("+09:00", [19782, 54000]), ("+09:00", [19782, 53999]), ("-08:00", [19783, 28800]),
+                       ("-08:00", [19783, 28799]), ("+05:45", [19782, 65700]), ("+0545", [19782, 65699])]:
+        ctx.job("time-cli[%s]" % off,
+                gens=[{"base": "GenCli", "consts": {"Docs": [Chars(d) for d in docs], "TargetPool": [Chars("a")],
+                                                    "Zones": ["UTC", "Asia/Tokyo", "America/Los_Angeles", "unset"] if not q else ["Asia/Tokyo", "unset"],
+                                                    "Langs": [""], "OmitAll": False, "Part": "clean_stdout"}}],
+                invariants=["Inv_C05", "Inv_C20"], ops=[], cli=True,
+                cfg={"ds": "<!-- <", "de": "> -->", "tl": "time-limited", "rm": "removal-marker", "off": off, "now": now},
+                nontrivial=None)
+
+
+TARGET_POOL = ["", "a", "A", "ab", "a ", "feature1", "feature", "vec![]", "+00:00"]
+
+
+def check_C06(ctx):
+    q = ctx.quick
+    for (tl, rm) in ([("tl", "rm")] if q else [("tl", "rm"), ("time-limited", "marker")]):
+        ctx.job("targets[%s]" % rm, gens=[{"base": "GenTargets", "consts": {"Pool": [Chars(t) for t in TARGET_POOL],
+                                                                          "MaxSize": 2 if q else 3}}],
+                invariants=["Inv_C06"], ops=[], cfg={"ds": "<", "de": ">", "tl": tl, "rm": rm, "targets": []},
+                nontrivial=ready_toggle)
+    # the command line with and without target options (defaults must contribute no targets)
+    doc = "".join("<!-- <removal-marker name='%s'> -->\nx%d\n<!-- </removal-marker> -->\n" % (t, i)
+                  for i, t in enumerate(["vec![]", "a", "", "feature1", "+00:00", "removal-marker"]))
+    ctx.job("targets-cli", gens=[{"base": "GenCli", "consts": {"Docs": [Chars(doc)], "TargetPool": [Chars("a"), Chars("feature1")],
+                                                               "Zones": ["UTC"], "Langs": [""], "OmitAll": True, "Part": "stdout"}}],
+            invariants=["Inv_C06"], ops=[], cli=True,
+            cfg={"ds": "<!-- <", "de": "> -->", "tl": "time-limited", "rm": "removal-marker", "off": "+00:00", "targets": []},
+            nontrivial=None)
+
+
+def tag_consts(k, full):
+    vals = ["", "a", "a b", "x=y", "it's", '"q"', "skip", "unwrap-block", "to='2000-01-01 00:00:00'", "<", "l1\nl2"]
+    if not full:
+        vals = ["", "a", "a b", "x=y", "it's", '"q"', "skip", "l1\nl2", "<"]
+    return {"TagNames": [Chars("rm"), Chars("tl")] if full else [Chars("rm")],
+            "AttrNames": [Chars(x) for x in (["name", "to", "skip", "c", "unwrap-block"] if full else ["name", "skip", "c"])],
+            "Values": [Chars(v) for v in vals],
+            "Seps": [Chars(x) for x in [" ", "  ", "\n", "\n  ", " \n * "]],
+            "Eqs": [[0, 0], [1, 0], [0, 1], [1, 1]] if full else [[0, 0], [1, 1]],
+            "Pads": [[0, 0], [1, 0], [0, 1], [1, 1]] if full else [[0, 0], [1, 1]],
+            "Trails": [Chars(x) for x in (["", " ", "\n"] if full else ["", " "])], "K": k}
+
+
+def parsed_attrs(b):
+    for e in b.get("events", []):
+        if e.get("ev") == "ParseTags" and any(t.get("attrs") for t in e.get("tags", [])):
+            return True
+    return False
+
+
+def check_C09(ctx):
+    q = ctx.quick
+    ops = [{"op": "parse_tags"}, {"op": "clean"}]
+    ctx.job("tag-k1", gens=[{"base": "GenTag", "extra_inv": "RoundTrip", "consts": tag_consts(1, True)}],
+            invariants=["Inv_C09"], ops=ops, cfg={"ds": "<", "de": ">"}, nontrivial=parsed_attrs)
+    if q:
+        ctx.job("tag-sim", gens=[{"base": "GenTag", "extra_inv": "RoundTrip", "consts": tag_consts(3, True), "simulate": (60, 6)}],
+                invariants=["Inv_C09"], ops=ops, cfg={"ds": "<", "de": ">"}, nontrivial=parsed_attrs)
+    else:
+        ctx.job("tag-k2", gens=[{"base": "GenTag", "extra_inv": "RoundTrip", "consts": tag_consts(2, False)}],
+                invariants=["Inv_C09"], ops=ops, cfg={"ds": "<", "de": ">"}, nontrivial=parsed_attrs)
+        ctx.job("tag-sim", gens=[{"base": "GenTag", "extra_inv": "RoundTrip", "consts": tag_consts(4, True), "simulate": (2500, 7)}],
+                invariants=["Inv_C09"], ops=ops, cfg={"ds": "<", "de": ">"}, nontrivial=parsed_attrs)
+    ctx.job("tag-html", gens=[{"base": "GenTag", "extra_inv": "RoundTrip", "consts": tag_consts(1, False)}],
+            invariants=["Inv_C09"], ops=ops, cfg={"ds": "<!-- <", "de": "> -->"}, nontrivial=parsed_attrs)
+
+
+def has_pair(b):
+    for e in b.get("events", []):
+        if e.get("ev") == "Tree" and any(r[0] == 1 for r in e.get("tree", [])):
+            return True
+    return False
+
+
+def check_C10(ctx):
+    q = ctx.quick
+    for (ds, de) in [("<", ">")] + ([] if q else [("<!-- <", "> -->")]):
+        atoms = [ds + "a" + de, ds + "b" + de, ds + "/a" + de, ds + "/b" + de, ds + "/x" + de, "t"]
+        ctx.job("tokens[%s|%s]" % (ds, de),
+                gens=[{"base": "GenAtoms", "consts": {"Atoms": [Chars(a) for a in atoms], "N": 6 if q else 8}}],
+                invariants=["Inv_C10"], ops=[{"op": "tree"}], cfg={"ds": ds, "de": de}, nontrivial=has_pair)
+    atoms = ["<a x='1'>", "<a>", "</a>", "<b skip>", "</b>", "</a >", "< a>", "<>", "t", "\n"]
+    ctx.job("tokens-attrs", gens=[{"base": "GenAtoms", "consts": {"Atoms": [Chars(a) for a in atoms], "N": 5 if q else 6}}],
+            invariants=["Inv_C10"], ops=[{"op": "tree"}], cfg={"ds": "<", "de": ">"}, nontrivial=has_pair)
+    block_like = [lines_gen(7 if q else 9, 3, 3, ["R", "P", "Ru"], blank=False)]
+    ctx.job("tree-in-clean", gens=block_like, invariants=["Inv_C10"], ops=[{"op": "clean"}], cfg={"ds": "<", "de": ">"},
+            nontrivial=has_ready)
+
+
+def check_C18(ctx):
+    from vlib import TlaRaw
+    q = ctx.quick
+    n = len(SPELLINGS)
+    bases = [ctx.seed % n, (ctx.seed + 5) % n] if q else list(range(n))
+    for bi in bases:
+        ds, de = SPELLINGS[bi]
+        tl, rm = NAME_POOL[bi % len(NAME_POOL)]
+        others = []
+        for j, (ds2, de2) in enumerate(SPELLINGS):
+            if j == bi:
+                continue
+            for (tl2, rm2) in ([NAME_POOL[(j + 1) % len(NAME_POOL)]] if q else NAME_POOL):
+                others.append({"ds": Chars(ds2), "de": Chars(de2), "tl": Chars(tl2), "rm": Chars(rm2)})
+        g = lines_gen(5 if q else 6, 2, 2, ["R", "P", "T", "Ru"], blank=False)
+        g["base"] = "GenRespell"
+        g["emit"] = "EmitPairs"
+        g["consts"]["Spellings"] = others
+        ctx.job("respell[%s|%s]" % (ds, de), gens=[g], invariants=["Inv_C18"], ops=[],
+                cfg={"ds": ds, "de": de, "tl": tl, "rm": rm}, nontrivial=has_ready)
+
+
+def chains():
+    # clocks: tau_k lies after T_k expired and before T_{k+1}; day numbers of 2001-06-01, 2002-06-01, 2003-06-01
+    t = [[11474, 0], [11839, 0], [12204, 0]]
+    tg = [[], ["m1"], ["m1", "m2"], ["m1", "m2", "m3"]]
+    out = []
+    for seq in [(0,), (2,), (0, 1), (0, 2), (1, 2), (0, 1, 2), (0, 0, 2), (1, 1)]:
+        out.append([{"now": t[k], "targets": [Chars(x) for x in tg[k + 1]]} for k in seq])
+    return out
+
+
+def check_C19(ctx):
+    q = ctx.quick
+    cfg = {"ds": "<", "de": ">", "targets": []}
+    sets = [
+        ("hist-time", lines_gen(6 if q else 8, 2, 2 if q else 3, ["T1", "T2", "T3"], blank=False)),
+        ("hist-unwrap", lines_gen(8 if q else 9, 2, 2, ["T1u", "T2", "T3u"] if q else ["T1u", "T2u", "T1", "T2", "T3"], blank=False)),
+        ("hist-marker", lines_gen(7 if q else 8, 2, 2, ["M1", "M2u", "M3"], blank=True)),
+    ]
+    for (name, g) in sets:
+        g["base"] = "GenHist"
+        g["emit"] = "EmitHist"
+        g["consts"]["Chains"] = chains()
+        ctx.job(name, gens=[g], invariants=["Inv_C19"], ops=[], cfg=cfg, nontrivial=has_ready)
+
+
+CLI_DOCS_DEFAULT = [
+    "a\n<!-- <time-limited to='2001-01-01 00:00:00'> -->\nold\n<!-- </time-limited> -->\n"
+    "<!-- <removal-marker name='a'> -->\n  ra\n<!-- </removal-marker> -->\n"
+    "<!-- <removal-marker name='feature1' unwrap-block> -->\nif (f) {\n  keep();\n}\n<!-- </removal-marker> -->\n"
+    "<!-- <removal-marker name='vec![]'> -->\nrv\n<!-- </removal-marker> -->\nz\n",
+    "日本語\n<!-- <time-limited to='2999-01-01 00:00:00'> -->\n\tnew é\n<!-- </time-limited> -->\nend",
+    "",
+]
+CLI_DOCS_CUSTOM = [
+    "x\n/* <tl to='2001-01-01 00:00:00'> */\nold\n/* </tl> */\n/* <rm name='a'> */ra/* </rm> */\n/* <rm name='zz'> */\nrz\n/* </rm> */\ny\n",
+]
+
+
+def check_C20(ctx):
+    q = ctx.quick
+    zones = ["UTC", "Asia/Tokyo", "America/Los_Angeles", "unset"]
+    if q:
+        zones = [zones[ctx.seed % 4], zones[(ctx.seed + 1) % 4]]
+    langs = [""] if q else ["", "C", "en_US.UTF-8", "ja_JP.UTF-8"]
+    ctx.job("cli-defaults", gens=[{"base": "GenCli", "consts": {"Docs": [Chars(d) for d in (CLI_DOCS_DEFAULT[:2] if q else CLI_DOCS_DEFAULT)],
+                                                                "TargetPool": [Chars("a"), Chars("feature1"), Chars("x y")],
+                                                                "Zones": zones, "Langs": langs, "OmitAll": True, "Part": "all"}}],
+            invariants=["Inv_C20"], ops=[], cli=True,
+            cfg={"ds": "<!-- <", "de": "> -->", "tl": "time-limited", "rm": "removal-marker", "off": "+00:00",
+                 "now": [19000, 0], "targets": []}, nontrivial=None)
+    ctx.job("cli-custom", gens=[{"base": "GenCli", "consts": {"Docs": [Chars(d) for d in CLI_DOCS_CUSTOM],
+                                                              "TargetPool": [Chars("a"), Chars("b")],
+                                                              "Zones": zones[:1] if q else zones, "Langs": langs[:1], "OmitAll": False, "Part": "all"}}],
+            invariants=["Inv_C20"], ops=[], cli=True,
+            cfg={"ds": "/* <", "de": "> */", "tl": "tl", "rm": "rm", "off": "+09:00", "now": [19000, 3600], "targets": []},
+            nontrivial=None)
+
+
 CHECKS = {"C01": check_C01, "C02": check_C02, "C03": check_C03, "C04": check_C04, "C07": check_C07, "C08": check_C08,
           "C11": check_C11, "C12": check_C12, "C13": check_C13, "C14": check_C14, "C15": check_C15, "C16": check_C16,
-          "C17": check_C17}
+          "C17": check_C17, "C05": check_C05, "C06": check_C06, "C09": check_C09, "C10": check_C10, "C18": check_C18,
+          "C19": check_C19, "C20": check_C20}
 NEEDS_CLI = {"C05", "C06", "C20", "C01"}
